@@ -380,7 +380,9 @@ func PublishContext[T any](bus *EventBus, ctx context.Context, event T) {
 	}
 
 	// Persist the event (no-op without a store) before any handler sees it
-	bus.persistEvent(ctx, eventType, event)
+	if offset, ok := bus.persistEvent(ctx, eventType, event); ok {
+		ctx = context.WithValue(ctx, persistedOffsetKey{}, offset)
+	}
 
 	// Get handlers from appropriate shard
 	shard := bus.getShard(eventType)
